@@ -222,18 +222,24 @@ deque_fk!(Max);
 deque_fk!(Min);
 fk!([const N: usize] Bounds<Q, N>, Q => (Q, Q) {});
 
-fk!([const N: usize] Convolve<Q, N>, Q => Q {
-    fn guts_(&mut self, field: &str) -> String {
-        let st = unsafe { StateMut::state_mut(self) };
-        match field {
-            "taps" => render_list(st.taps.iter()),
-            _ => "unsupported".to_string(),
-        }
-    }
-    fn cfg_(&mut self) -> String {
-        render_list(self.config_ref().coefficients.iter())
-    }
-});
+macro_rules! conv_fk {
+    ($t:ty) => {
+        fk!([const N: usize] Convolve<$t, N>, $t => $t {
+            fn guts_(&mut self, field: &str) -> String {
+                let st = unsafe { StateMut::state_mut(self) };
+                match field {
+                    "taps" => render_list(st.taps.iter()),
+                    _ => "unsupported".to_string(),
+                }
+            }
+            fn cfg_(&mut self) -> String {
+                render_list(self.config_ref().coefficients.iter())
+            }
+        });
+    };
+}
+conv_fk!(Q);
+conv_fk!(i64);
 fk!([const N: usize] Delay<Q, N>, Q => Q {
     fn guts_(&mut self, field: &str) -> String {
         let st = unsafe { StateMut::state_mut(self) };
@@ -660,6 +666,14 @@ fn build_inner(kind: &str, kv: &KV, wrap: Option<&str>) -> Box<dyn Inst> {
         ("median", "f64") => with_n!(kv_n(kv, "N"), N => finish(Median::<f64, N>::default(), wrap)),
         ("mean", "q") => with_n!(kv_n(kv, "N"), N => finish_q(Mean::<Q, N>::default(), wrap)),
         ("mean", "i64") => with_n!(kv_n(kv, "N"), N => finish(Mean::<i64, N>::default(), wrap)),
+        ("convolve", "i64") | ("convolve_norm", "i64") => {
+            let c: Vec<i64> = parse_vals(kv_str(kv, "c")).into_iter().map(i64::from_val).collect();
+            if kind == "convolve" {
+                with_n!(c.len(), N => finish(Convolve::<i64, N>::with_config(ConvolveConfig { coefficients: arr(c) }), wrap))
+            } else {
+                with_n!(c.len(), N => finish(Convolve::<i64, N>::normalized(ConvolveConfig { coefficients: arr(c) }), wrap))
+            }
+        }
         ("median", "tracked") => with_n!(kv_n(kv, "N"), N => finish(Median::<Tracked, N>::default(), wrap)),
         ("mean", "tracked") => with_n!(kv_n(kv, "N"), N => finish(Mean::<Tracked, N>::default(), wrap)),
         ("max", "tracked") => with_n!(kv_n(kv, "N"), N => finish(Max::<Tracked, N>::default(), wrap)),
@@ -770,6 +784,31 @@ fn parse_taps(s: &str) -> Vec<(Q, usize)> {
 pub fn inject(kind: &str, kv: &KV) -> Box<dyn Inst> {
     use circular_buffer::CircularBuffer;
     match kind {
+        "convolve" if kv.get("T").map(|s| s.as_str()) == Some("tracked") => {
+            let c: Vec<Tracked> = kv_qs(kv, "c").into_iter().map(Tracked::new).collect();
+            with_n!(c.len(), N => {
+                let mut taps: CircularBuffer<N, Tracked> = CircularBuffer::default();
+                for t in kv_qs(kv, "taps") { taps.push_back(Tracked::new(t)); }
+                let st = signalo_filters::convolve::State { taps };
+                Box::new(Convolve::<Tracked, N>::from_guts((ConvolveConfig { coefficients: arr(c) }, st))) as Box<dyn Inst>
+            })
+        }
+        "delay" if kv.get("T").map(|s| s.as_str()) == Some("tracked") => with_n!(kv_n(kv, "N"), N => {
+            let mut taps: CircularBuffer<N, Tracked> = CircularBuffer::default();
+            for t in kv_qs(kv, "taps") { taps.push_back(Tracked::new(t)); }
+            let st = signalo_filters::delay::State { taps };
+            Box::new(Delay::<Tracked, N>::from_guts(st)) as Box<dyn Inst>
+        }),
+        "mean" if kv.get("T").map(|s| s.as_str()) == Some("tracked") => with_n!(kv_n(kv, "N"), N => {
+            let mut taps: CircularBuffer<N, Tracked> = CircularBuffer::default();
+            for t in kv_qs(kv, "taps") { taps.push_back(Tracked::new(t)); }
+            let st = signalo_filters::mean::mean::State {
+                mean: kv_oq(kv, "mean").map(Tracked::new),
+                taps,
+                weight: Tracked::new(kv_q(kv, "weight")),
+            };
+            Box::new(Mean::<Tracked, N>::from_guts(st)) as Box<dyn Inst>
+        }),
         "max" => with_n!(kv_n(kv, "N"), N => {
             let mut taps: CircularBuffer<N, (Q, usize)> = CircularBuffer::default();
             for t in parse_taps(kv_str(kv, "taps")) { taps.push_back(t); }
